@@ -40,6 +40,8 @@ class NumStr(Val):
                 out.append('<%s:%s blank-padded>' % (alg.fmt(t[1]), t[2]))
             elif t[0] == 'dig':
                 out.append('<%s>' % alg.fmt(t[1]))
+            elif t[0] == 'repr':
+                out.append('<repr %s>' % alg.fmt(t[1]))
             else:
                 out.append(t[1])
         return 'numstr(' + ''.join(out) + ')'
@@ -181,6 +183,10 @@ class DigitEvaluator(Evaluator):
 
     def numstr_method(self, s, attr, args, node):
         toks = s.toks
+        if any(t[0] == 'repr' for t in toks) and attr in ('split', 'partition', 'index', 'find'):
+            self.string_problems.append(('repr', node, 'the digits are taken from str(x): the shortest repr of a float is not a fixed-point rendering - below 1e-4 it is '
+                                         'in exponent notation ("1e-05"), whole numbers print as "5.0", so positions in it are not decimal places'))
+            return None
         if attr in ('strip',) and not args:
             return s
         if attr == 'rstrip' and len(args) == 1 and isinstance(args[0], Str) and args[0].s == '0' and toks:
@@ -244,6 +250,8 @@ class DigitEvaluator(Evaluator):
     # ---- parsing back
     def ext_call(self, name, args, kwargs, node):
         short = name.split('.')[-1]
+        if short in ('str', 'repr') and len(args) == 1 and isinstance(args[0], Rat) and args[0].as_fraction() is None:
+            return NumStr([('repr', args[0])])
         if short in ('float', 'int', 'len') and len(args) == 1 and isinstance(args[0], NumStr):
             s = args[0]
             if short == 'len':
